@@ -434,6 +434,15 @@ pub fn rand_desc(r: &Rng) -> Vec<u8> {
     d
 }
 
+/// one descriptor whose length byte is 253, 254 or 255 (or, now and then, anything from 200 up)
+pub fn long_desc(r: &Rng) -> Vec<u8> {
+    let tag = match r.below(6) { 0 => 5, 1 => 10, 2 => 14, 3 => 40, _ => r.byte() };
+    let len = if r.chance(3, 4) { 253 + r.below(3) as usize } else { 200 + r.below(56) as usize };
+    let mut d = vec![tag, len as u8];
+    d.extend(r.bytes(len));
+    d
+}
+
 pub fn rand_desc_loop(r: &Rng, max: usize) -> Vec<u8> {
     let mut b = vec![];
     for _ in 0..r.below(max as u64 + 1) { b.extend(rand_desc(r)); }
@@ -1108,8 +1117,13 @@ pub fn rand_progs(r: &Rng, nprog: usize, max_streams: usize, used: &mut Vec<u16>
             let st = if r.chance(5, 6) { PES_TYPES[r.below(6) as usize] } else { NON_PES_TYPES[r.below(3) as usize] };
             (st, p, if r.chance(1, 2) { rand_desc_loop(r, 2) } else { vec![] })
         }).collect();
+        let mut streams = streams;
+        let mut prog_desc = if r.chance(1, 3) { rand_desc_loop(r, 2) } else { vec![] };
+        // descriptors at the top of the 8-bit length range (a PMT carrying one spans two packets)
+        if r.chance(1, 10) { prog_desc.extend(long_desc(r)); }
+        if r.chance(1, 10) { let k = r.below(streams.len() as u64) as usize; let d = long_desc(r); streams[k].2.extend(d); }
         progs.push(Prog { num: (i as u16 + 1) * 3 + r.below(3) as u16, pmt_pid, version: r.byte() & 31, pcr_pid: streams[0].1,
-            prog_desc: if r.chance(1, 3) { rand_desc_loop(r, 2) } else { vec![] }, streams });
+            prog_desc, streams });
     }
     progs
 }
@@ -1308,6 +1322,14 @@ fn gen_c10(tier: &str, r: &Rng, o: &mut Out<'_>) {
 fn rand_flag_packet(r: &Rng, pid: u16, cc: u8) -> Vec<u8> {
     let mut p = mk_pkt(r, pid, r.chance(1, 3), cc, &r.bytes(1 + r.below(184) as usize), false);
     match r.below(8) { 0 => p[1] |= 0x80, 1 => p[3] |= 0x40, 2 => p[3] |= 0x80, 3 => p[3] |= 0xc0, _ => {} }
+    // every adaptation_field_control value under every flag combination: a flagged packet with no
+    // payload (AF only, or the reserved value 00) is dropped like any other flagged packet
+    match r.below(10) {
+        0 => { p[3] = (p[3] & 0xcf) | 0x20; p[4] = 183; p[5] = if r.chance(1, 2) { 0 } else { 0x10 }; }
+        1 => { p[3] &= 0xcf; }
+        2 => { p[3] = (p[3] & 0xcf) | 0x20; p[4] = r.byte(); }
+        _ => {}
+    }
     p
 }
 
